@@ -557,6 +557,28 @@ def sym_sqrt(x, nonneg=False):
     return Sym(r)
 
 
+_EXP_UF = None
+
+
+def sym_exp(x):
+    """exp over the reals as an UNINTERPRETED function (congruence only: equal arguments give equal values) that is positive.  Nothing else about exp is
+    available to the solver: identities such as exp(a + b) = exp(a) exp(b) are not - obligations that use it set budget['abstract']."""
+    global _EXP_UF
+    if not isinstance(x, Sym):
+        return math.exp(x)
+    c = _const_value(x.t)
+    if c is not None and Fraction(c) == 0:
+        return Sym(z3.RealVal(1))
+    ctx = PathCtx.cur
+    if ctx is None:
+        raise Unsupported("exp of symbolic value outside path context")
+    if _EXP_UF is None:
+        _EXP_UF = z3.Function("vf_exp", z3.RealSort(), z3.RealSort())
+    e = _EXP_UF(z3.simplify(_real(x.t)))
+    ctx.add(e > 0)
+    return Sym(e)
+
+
 def sym_if(c, a, b):
     if isinstance(c, (bool, np.bool_)):
         return a if c else b
